@@ -24,6 +24,20 @@ def spec(level, extra_assume=None, run=default_run):
 
 
 TABLE = {
+    "C08": spec("model_checking", [
+        "step-local oracle: the states read at the device's terminals immediately before update() are taken as the "
+        "measurements; projection computed in f64 with forward-error bound (exact where the arithmetic is dyadic)"]),
+    "C13": spec("model_checking", [
+        "ties (equal newest timestamps) accept any newest issued command, including one sitting in the own slot of "
+        "the external terminal on that side",
+        "mapped values may differ from value*ratio resp. value/ratio by 2 ulp"]),
+    "C15": spec("model_checking", [
+        "clock values and offsets stay far from i64 overflow (the property excludes overflowing combinations)",
+        "the order in which GetterFromHistory::update updates history and time getter is not constrained"]),
+    "C12": spec("model_checking", [
+        "EWMA lambda is judged with the power function of the build under test called directly by the harness "
+        "(plus the change a 2-ulp different dt would induce); the recursion is judged step-locally against the real previous output",
+        "timestamps are non-decreasing as the property states; f32 and Quantity variants must agree within 2 ulp"]),
     "C10": spec("model_checking", [
         "reference sums/differences in f64 with running forward-error bound; bit equality only where certified exact",
         "intervals are judged as the crate computes them ((ns as f32)/1e9), so an interval such as 2.25 s, whose "
